@@ -62,6 +62,9 @@ let nentry () =
            let ops = rep k (fun () -> let q = nnat () in let d = nbool () in (q, d)) in
            let c = ngz () in EString (ops, c)
   | "E0" -> let c = ngz () in EScalar c
+  | "NUM" -> let c = ngz () in ENumber c
+  | "SZ2" -> let c = ngz () in ETwoSz c
+  | "S2x4" -> let c = ngz () in EFourS2 c
   | _ -> failwith ("entry tag " ^ tag)
 let nentries () = let k = nint () in rep k nentry
 
@@ -162,6 +165,16 @@ let handle () =
      List.iter (fun o -> match o with Some c -> emit ("o " ^ sgz c) | None -> emit "n") obs;
      emit "|";
      List.iter (fun v -> List.iter (fun c -> emit (sgz c)) v) finals
+   | "CTOR" ->
+     let kind = nnat () in let a = nz () in let b = nz () in let c = nz () in
+     (match m_ctor kind a b c with
+      | None -> emit "REJECT"
+      | Some l -> emit (string_of_int (List.length l));
+        List.iter (fun (((n, s), la), lb) -> emit (string_of_z n); emit (string_of_z s);
+                    emit (string_of_z la); emit (string_of_z lb)) l)
+   | "TREV" ->
+     let v = nvec () in
+     List.iter (fun ((a, b), c) -> emit (string_of_n a); emit (string_of_n b); emit (sgz c)) (m_trev v)
    | "INNER" ->
      let norb = nnat () in let x = nvec () in let y = nvec () in
      emit (sgz (m_inner norb x y))
